@@ -7,6 +7,7 @@ import (
 	"io"
 	"net/http"
 	"strings"
+	"syscall"
 
 	restful "github.com/emicklei/go-restful/v3"
 
@@ -16,7 +17,11 @@ import (
 
 func init() { register("C15", c15) }
 
+// errInjected is what the underlying writer fails with; it rotates over plain errors and the sentinels a real
+// net/http connection produces (the property speaks of "that error", whichever it is).
 var errInjected = errors.New("injected: underlying writer failed")
+
+var errKinds = []error{errors.New("injected: underlying writer failed"), http.ErrBodyNotAllowed, http.ErrHandlerTimeout, io.ErrClosedPipe, io.ErrShortWrite, syscall.EPIPE, http.ErrContentLength}
 
 // faultWriter accepts exactly limit bytes, then fails every call.
 type faultWriter struct {
@@ -264,7 +269,8 @@ func c15(ctx *core.Ctx) {
 		if !s.UseResp {
 			restful.PrettyPrintResponses = s.Pretty
 		}
-		ctx.Case(si, core.JSON(s))
+		errInjected = errKinds[si%len(errKinds)]
+		ctx.Case(si, core.JSON(s)+" error="+errInjected.Error())
 		base := runC15(s, -1)
 		ctx.Eval(1)
 		total := base.fw.accepted
